@@ -51,8 +51,13 @@ AIRPORTS = {
     'LXA': (29.2978, 90.911903, 11713), 'CUZ': (-13.5357, -71.938797, 10860),
     # synthetic: between cruise-3000ft and cruise, above cruise, at / above typical ceilings
     'HI1': (10.0, 20.0, 29500), 'HI2': (12.0, 24.0, 32500), 'HI3': (14.0, 28.0, 36000), 'HI4': (16.0, 32.0, 42500),
+    'HI5': (11.0, 23.0, 30000), 'HI6': (13.0, 25.0, 27000),
+    # low airports a few hundred km from the synthetic high ones and from the Andean / Tibetan ones
+    'LO1': (11.5, 21.5, 1000), 'LO2': (13.0, 26.5, 5000), 'LO3': (-15.0, -70.5, 500), 'LO4': (30.0, 94.0, 3000),
 }
 FRACS = [0.01, 0.0125, 0.02, 1 / 30, 0.05, 0.1]
+# point counts that cross the 50-point growth boundary of the buffers inside a phase (66, 80, 125, 250)
+CROSSING = [0.015, 0.0125, 0.008, 0.004]
 
 
 # ----------------------------------------------------------------------------------------------
@@ -72,15 +77,38 @@ def write_airports(data_dir: Path):
     (d / 'airports.csv').write_text('\n'.join(rows) + '\n')
 
 
+WIND_UV = (25.0, -15.0)
+
+
+def write_weather(wx: Path):
+    """A global, uniform wind field (u, v) = WIND_UV on a coarse grid, one file for the flight date."""
+    import numpy as np
+    import xarray as xr
+    wx.mkdir(parents=True, exist_ok=True)
+    lev = np.array([1000.0, 850.0, 700.0, 500.0, 300.0, 200.0, 100.0, 50.0])
+    lat = np.arange(90.0, -90.1, -10.0)
+    lon = np.arange(-180.0, 180.1, 10.0)
+    shape = (len(lev), len(lat), len(lon))
+    ds = xr.Dataset({'u': (('pressure_level', 'latitude', 'longitude'), np.full(shape, WIND_UV[0])),
+                     'v': (('pressure_level', 'latitude', 'longitude'), np.full(shape, WIND_UV[1])),
+                     't': (('pressure_level', 'latitude', 'longitude'), np.full(shape, 250.0))},
+                    coords={'pressure_level': lev, 'latitude': lat, 'longitude': lon})
+    ds.to_netcdf(wx / '20240901.nc')
+
+
 def setup_env(chk: Check):
-    """Configuration singleton with the harness-written airports file first on the data path."""
+    """Configuration singleton with the harness-written airports file first on the data path and the synthetic
+    weather directory."""
     os.environ['AEIC_PATH'] = str(REPO / 'tests/data')
     data = chk.tmp / 'data'
     write_airports(data)
+    wx = chk.tmp / 'wxsyn'
+    if not (wx / '20240901.nc').exists():
+        write_weather(wx)
     from AEIC.config import Config
     import AEIC.utils.airports as ap
     Config.reset()
-    Config.load(data_path_overrides=[data, REPO / 'tests/data'])
+    Config.load(data_path_overrides=[data, REPO / 'tests/data'], weather={'weather_data_dir': str(wx)})
     ap._airports = None
 
 
@@ -113,7 +141,7 @@ def perf_model(variant):
         for row in data['flight_performance']['data']:
             row[ix['fuel_flow']] *= variant['ff'] * (variant.get('ff_climb', 1.0) if row[ix['rocd']] > 1e-6 else 1.0)
             row[ix['tas']] *= variant['tas']
-            row[ix['rocd']] *= variant['rocd']
+            row[ix['rocd']] *= variant['rocd'] * (variant.get('rocd_des', 1.0) if row[ix['rocd']] < -1e-6 else 1.0)
             row[ix['mass']] *= variant['mass']
         data['maximum_altitude_ft'] = variant['ceiling_ft']
         data['maximum_payload_kg'] = variant['payload']
@@ -144,6 +172,18 @@ class PerfProxy:
         self.calls.append((rules.name, alt, mass,
                            (float(p.true_airspeed), float(p.rate_of_climb), float(p.fuel_flow)), None))
         return p
+
+
+def detect_given_fix() -> bool:
+    """True iff fly(..., starting_mass=x) flies (the fuel load is derived although the mass is handed in)."""
+    import AEIC.trajectories.builders as tb
+    b = tb.LegacyBuilder(options=tb.Options(iterate_mass=False), legacy_options=tb.LegacyOptions(0.02, 0.02, 0.02))
+    case = {'o': 'BOS', 'd': 'LAX', 'lf': 1.0}
+    try:
+        b.fly(perf_model(None), mission_of(case), starting_mass=70000.0)
+    except TypeError:
+        return False
+    return True
 
 
 def detect_f1_fixed() -> bool:
@@ -184,7 +224,7 @@ def classify_exception(e: BaseException) -> str:
     last_file, last_fn = frames[-1] if frames else ('', '')
     if isinstance(e, RuntimeError) and last_fn == '_iterate_mass':
         return 'ENoConv'
-    if type(e).__name__ == 'Exception' and last_file == 'ground_track.py' and last_fn == 'step':
+    if type(e).__name__ == 'Exception' and last_file == 'ground_track.py' and last_fn in ('step', 'lookup_waypoint'):
         return 'ETrack'
     if isinstance(e, ValueError) and last_file == 'legacy.py' and last_fn == '__init__':
         return 'ESchedule'
@@ -192,6 +232,8 @@ def classify_exception(e: BaseException) -> str:
         return 'ENoFuelLoad'
     if isinstance(e, IndexError) and last_fn == 'make_point':
         return 'EHandover'
+    if isinstance(e, ValueError) and last_file == 'weather.py' and 'outside weather data domain' in str(e):
+        return 'EWeather'
     if 'evaluate' in names and isinstance(e, ValueError):
         return 'EPerf'
     return f'other:{type(e).__name__}:{str(e)[:80]}'
@@ -207,7 +249,7 @@ def fly_impl(case):
     proxy = PerfProxy(pm)
     mis = mission_of(case)
     opts = tb.Options(iterate_mass=case['iterate'], max_mass_iters=case['max_iters'],
-                      mass_iter_reltol=case['reltol'])
+                      mass_iter_reltol=case['reltol'], use_weather=bool(case.get('wind')))
     lo = tb.LegacyOptions(frac_step_clm=case['f_clm'], frac_step_crz=case['f_crz'], frac_step_des=case['f_des'])
     builder = tb.LegacyBuilder(options=opts, legacy_options=lo)
     steps = []
@@ -223,8 +265,23 @@ def fly_impl(case):
                       (float(g.location.longitude), float(g.location.latitude), float(g.azimuth)), None))
         return g
 
+    from AEIC.weather import Weather
+    winds = []
+    orig_gs = Weather.get_ground_speed
+
+    def rec_gs(self, *a, **k):
+        tas = float(k['true_airspeed'])
+        try:
+            g = orig_gs(self, *a, **k)
+        except Exception as e:  # noqa: BLE001
+            winds.append((tas, None, type(e).__name__))
+            raise
+        winds.append((tas, float(g), None))
+        return g
+
     GroundTrack.step = rec_step
-    out = {'perf': proxy.calls, 'steps': steps}
+    Weather.get_ground_speed = rec_gs
+    out = {'perf': proxy.calls, 'steps': steps, 'winds': winds}
     try:
         kw = {}
         if case.get('given_mass') is not None:
@@ -242,6 +299,7 @@ def fly_impl(case):
         out['exc'] = f'{type(e).__name__}: {str(e)[:120]}'
     finally:
         GroundTrack.step = orig_step
+        Weather.get_ground_speed = orig_gs
     # fixed data of the flight, from the real classes (the geodesic is C15's oracle)
     out['ceiling'] = float(pm.maximum_altitude)
     try:
@@ -272,7 +330,7 @@ def n_points(case):
     return int(1 / case['f_clm']), int(1 / case['f_crz']), int(1 / case['f_des'] + 1)
 
 
-def coq_flight_expr(case, impl, fixed: bool) -> str:
+def coq_flight_expr(case, impl, fixed: bool, gfix: bool = False) -> str:
     pl = [Some(c[3]) if c[3] is not None else None for c in impl['perf']]
     gl = [s[2] for s in impl['steps'] if s[2] is not None]
     n1, n2, n3 = n_points(case)
@@ -282,7 +340,9 @@ def coq_flight_expr(case, impl, fixed: bool) -> str:
           f"{to_coq(impl['az0'])} {to_coq(impl['total'])} {to_coq(float(case['lf']))} {to_coq(mp)} {to_coq(em)} "
           f"{to_coq(mm)} {to_coq(43.8e6)} {nat(n1)} {nat(n2)} {nat(n3)})")
     given = to_coq(Some(float(case['given_mass']))) if case.get('given_mass') is not None else 'None'
-    return (f"run_flight {to_coq(fixed)} {to_coq(pl)} {to_coq(gl)} {fl} {given} {to_coq(bool(case['iterate']))} "
+    wl = [Some(w[1]) if w[1] is not None else None for w in impl['winds']]
+    return (f"run_flight {to_coq(fixed)} {to_coq(gfix)} {to_coq(pl)} {to_coq(gl)} {to_coq(bool(case.get('wind')))} "
+            f"{to_coq(wl)} {fl} {given} {to_coq(bool(case['iterate']))} "
             f"{nat(case['max_iters'])} {to_coq(float(case['reltol']))}")
 
 
@@ -303,6 +363,8 @@ def compare_flight(case, impl, m):
     _, nc, ncr, nd, sm, tf, _resid, kp, kg, rows = m
     if (nc, ncr, nd) != impl['n']:
         return f"phase counts model {(nc, ncr, nd)} vs implementation {impl['n']}"
+    if case.get('wind') and len(impl['winds']) != kg:
+        return f"ground-speed calls: implementation {len(impl['winds'])}, track steps of the model {kg}"
     if kp != len(impl['perf']) or kg != sum(1 for s in impl['steps'] if s[2] is not None):
         return f"oracle calls model ({kp},{kg}) vs implementation ({len(impl['perf'])},{len(impl['steps'])})"
     if not close(sm, impl['start_mass']) or not close(tf, impl['total_fuel']):
@@ -520,43 +582,63 @@ def f1_signature(case, impl, first_bad_index, f1_fixed):
 # generation
 # ----------------------------------------------------------------------------------------------
 
-def gen_table(rng, long_range=False):
+def gen_table(rng, long_range=False, ceiling_ft=None):
     if long_range:
         # a valid table with a fifth of the fuel flow: the only way a narrow-body table covers 19 800 km
         return {'tas': 1.1, 'rocd': 1.0, 'ff': 0.15, 'mass': 1.0, 'ceiling_ft': rng.choice([39000, 41000]), 'payload': 22422}
-    if rng.random() < 0.55:
+    if ceiling_ft is None and rng.random() < 0.45:
         return None
     return {'tas': rng.choice([0.85, 1.0, 1.1]), 'rocd': rng.choice([0.7, 1.0, 1.3]),
             'ff': rng.choice([0.6, 1.0, 1.5]), 'mass': rng.choice([0.9, 1.0, 1.2]),
-            'ceiling_ft': rng.choice([33000, 37000, 39000, 41000]), 'payload': rng.choice([15000, 22422, 30000]),
+            'ceiling_ft': ceiling_ft or rng.choice([33000, 37000, 39000, 41000]),
+            'payload': rng.choice([15000, 22422, 30000]),
             # a thirstier climb than the cruise-based fuel estimate allows for: negative fuel residuals
-            'ff_climb': rng.choice([1.0, 1.0, 3.0, 5.0])}
+            'ff_climb': rng.choice([1.0, 1.0, 3.0, 5.0]),
+            # a shallower descent than the 18.23 * dh guess of the builder: the flight overshoots the destination
+            'rocd_des': rng.choice([1.0, 1.0, 0.8, 0.7])}
 
 
 REGIONAL = ['BOS', 'LAX', 'JFK', 'DEN', 'SFO', 'MIA', 'SEA', 'ORD', 'ABQ']
+# (origin, destination, ceiling ft): origin + 3000 ft inside [ceiling - 7000 ft, ceiling) ...
+HIGH_IN_BAND = [('LPB', 'LO3', 17000), ('LPB', 'LO3', 20000), ('LPB', 'CUZ', 23000), ('CUZ', 'LO3', 15000),
+                ('CUZ', 'LPB', 20000), ('BPX', 'LO4', 20000), ('DCY', 'LO4', 20000), ('LXA', 'LO4', 15000),
+                ('DEN', 'ABQ', 15000), ('DEN', 'ABQ', 12000), ('HI1', 'LO1', 33000), ('HI1', 'LO2', 37000),
+                ('HI6', 'LO2', 33000), ('HI6', 'LO1', 37000), ('HI5', 'LO1', 37000)]
+# ... at or above the ceiling (the climb then starts at the airport's own elevation), incl. exact equality
+HIGH_FALLBACK = [('LPB', 'LO3', 15000), ('LPB', 'LO3', 16355), ('BPX', 'LO4', 17000), ('DCY', 'LO4', 16000),
+                 ('HI2', 'LO2', 33000), ('HI5', 'LO1', 33000), ('HI3', 'LO2', 37000), ('HI6', 'LO1', 30000),
+                 ('LXA', 'LO4', 14000)]
+SHORT = [('BOS', 'JFK'), ('JFK', 'BOS'), ('LAX', 'SFO'), ('DEN', 'ABQ'), ('LPB', 'CUZ'), ('HI1', 'LO1'), ('LXA', 'LO4'),
+         ('LYR', 'YLT'), ('SFO', 'LAX')]
 
 
 def gen_case(rng, f1_fixed):
     codes = list(AIRPORTS)
     r = rng.random()
     long_range = False
-    if r < 0.40:
+    ceiling = None
+    if r < 0.30:
         o, d = rng.sample(REGIONAL, 2)
-    elif r < 0.46:
+    elif r < 0.35:
         o, d = rng.choice([('LHR', 'JFK'), ('BOS', 'LHR'), ('MAD', 'LHR'), ('LHR', 'LYR'), ('HNL', 'LAX'), ('SEA', 'LYR')])
-    elif r < 0.60:
+    elif r < 0.46:
         o, d = rng.choice([('NAN', 'HNL'), ('AKL', 'PPT'), ('NRT', 'ADK'), ('ADK', 'NRT'), ('PPT', 'AKL'), ('AKL', 'NAN'),
                            ('NAN', 'PPT'), ('HNL', 'NRT')])
-    elif r < 0.71:
+    elif r < 0.55:
         o, d = rng.choice([('LYR', 'YLT'), ('YLT', 'LYR'), ('NPX', 'LYR'), ('LYR', 'NPX'), ('MCM', 'SPX'), ('SPX', 'MCM'),
                            ('CHC', 'MCM'), ('YLT', 'NPX'), ('SPX', 'AKL')])
-    elif r < 0.79:
+    elif r < 0.60:
         o, d = rng.choice([('MAD', 'WLG'), ('BOS', 'APB'), ('WLG', 'MAD'), ('APB', 'BOS')])
         long_range = rng.random() < 0.8
-    elif r < 0.93:
+    elif r < 0.68:
         o, d = rng.choice([('LPB', 'CUZ'), ('CUZ', 'LPB'), ('BPX', 'LXA'), ('DCY', 'LXA'), ('DEN', 'ABQ'), ('LXA', 'BPX'),
                            ('HI1', 'LXA'), ('LXA', 'HI1'), ('HI2', 'LXA'), ('LXA', 'HI2'), ('HI3', 'LXA'), ('LXA', 'HI3'),
                            ('HI4', 'LXA'), ('LXA', 'HI4'), ('HI1', 'HI2'), ('HI1', 'DCY')])
+    elif r < 0.80:
+        # high origin against a low-ceiling (synthetic, valid) table: the start-altitude fall-back
+        o, d, ceiling = rng.choice(HIGH_IN_BAND if rng.random() < 0.6 else HIGH_FALLBACK)
+    elif r < 0.90:
+        o, d = rng.choice(SHORT)                              # climb + descent barely fit / do not fit
     else:
         o, d = rng.sample(codes, 2)
         if rng.random() < 0.4:
@@ -565,23 +647,29 @@ def gen_case(rng, f1_fixed):
     # point and the flight aborts in cruise, so in that state most cases use 50/80/100 points per phase.
     small = [0.01, 0.0125, 0.02]
     u = rng.random()
-    if u < 0.3:
+    if u < 0.25:
         f = rng.choice([0.01, 0.02])
         fr = (f, f, f)
-    elif u < (0.85 if not f1_fixed else 0.45):
+    elif u < (0.75 if not f1_fixed else 0.40):
         fr = tuple(rng.choice(small) for _ in range(3))
+    elif u < 0.85:
+        fr = tuple(rng.choice(CROSSING + [0.02]) for _ in range(3))
     elif u < 0.92:
         f = rng.choice(FRACS)
         fr = (f, f, f)
     else:
         fr = tuple(rng.choice(FRACS) for _ in range(3))
-    iterate = rng.random() < 0.4
+    wind = rng.random() < 0.08
+    if wind:
+        f = rng.choice([0.02, 0.02, 0.05 if f1_fixed else 0.02])
+        fr = (f, f, f)
+    iterate = rng.random() < (0.4 if not wind else 0.15)
     case = {'o': o, 'd': d, 'lf': rng.choice([0.0, 0.3, 0.5, 0.75, 0.9, 1.0, 1.0, round(rng.random(), 3)]),
             'f_clm': fr[0], 'f_crz': fr[1], 'f_des': fr[2], 'iterate': iterate,
             'max_iters': rng.choice([1, 2, 3, 5, 8]) if iterate else 5,
             'reltol': rng.choice([1e-2, 1e-3, 5e-2, 1e-6]) if iterate else 1e-2,
-            'given_mass': rng.choice([60000.0, 70000.0, 75000.0]) if rng.random() < 0.04 else None,
-            'table': gen_table(rng, long_range)}
+            'given_mass': rng.choice([60000.0, 66000.0, 70000.0, 75000.0]) if rng.random() < 0.12 else None,
+            'table': gen_table(rng, long_range, ceiling), 'wind': wind}
     return case
 
 
@@ -623,6 +711,27 @@ def check_container(chk: Check, f1_fixed: bool):
         except IndexError:
             mp = None
         impl.append((len(t), int(t._capacity), [int(x) for x in t.flight_time], mp))
+        if mp is not None and n < 120:
+            # the handed-over point is the caller's copy: writing to it, or appending more points (which may grow
+            # and refill the buffers), changes neither the stored points nor the copy
+            pt = t.make_point(idx)
+            stored = [float(x) for x in t.flight_time]
+            pt.flight_time = -7.0
+            pt.fuel_mass = -8.0
+            after_write = [float(x) for x in t.flight_time] + [float(x) for x in t.fuel_mass]
+            keep = t.make_point(idx)
+            for i in range(n, n + 60):
+                q = t.make_point()
+                for f in FIELDS:
+                    setattr(q, f, float(i + 1))
+                t.append(q)
+            case = {'kind': 'container', 'appends': n, 'idx': idx}
+            if after_write != stored + stored:
+                chk.fail(f'writing to the point returned by make_point({idx}) changed the stored points', case)
+            elif float(keep.flight_time) != float(mp) or [float(x) for x in t.flight_time][:n] != stored:
+                chk.fail(f'appending after make_point({idx}) changed the point taken earlier or the stored points', case)
+            elif float(pt.flight_time) != -7.0:
+                chk.fail('a single point does not keep the value written to it', case)
     model = chk.coq_eval(HEADER, [f'cont_run {to_coq(f1_fixed)} {nat(n)} {to_coq(idx)}' for n, idx in cases],
                          label='container')
     for (n, idx), im, mo in zip(cases, impl, model):
@@ -645,7 +754,7 @@ def check_container(chk: Check, f1_fixed: bool):
                 chk.traces_validated += 1
 
 
-def check_flights(chk: Check, cases, f1_fixed: bool, interp_fixed: bool):
+def check_flights(chk: Check, cases, f1_fixed: bool, interp_fixed: bool, gfix: bool = False):
     impls = []
     exprs = []
     keep = []
@@ -690,7 +799,7 @@ def check_flights(chk: Check, cases, f1_fixed: bool, interp_fixed: bool):
         im.pop('traj', None)
         impls.append(im)
         keep.append(case)
-        exprs.append(coq_flight_expr(case, im, f1_fixed))
+        exprs.append(coq_flight_expr(case, im, f1_fixed, gfix))
     models = chk.coq_eval(HEADER, exprs, shard=max(1, len(exprs) // 16 + 1), label='flights')
     for case, im, mo in zip(keep, impls, models):
         nc, ncr, nd = n_points(case)
@@ -699,6 +808,21 @@ def check_flights(chk: Check, cases, f1_fixed: bool, interp_fixed: bool):
                                                  or im['o'][2] > 1500 or abs(im['o'][0] - im['d'][0]) > 180))
         chk.count('flight:' + ('returned' if im['ok'] else im['err']))
         chk.count('steps:' + ('aligned' if not unaligned else 'unaligned'))
+        if case.get('wind'):
+            chk.count('wind:' + ('returned' if im['ok'] else im['err']))
+        if case.get('given_mass') is not None:
+            chk.count('given-mass:' + ('returned' if im['ok'] else im['err']))
+        if im['ok']:
+            if im['cols']['ground_distance'][-1] > im['total']:
+                chk.count('returned:overshoots-destination')
+            cl = im['ceiling']
+            if cl - 7000 * FT <= im['o'][2] + 3000 * FT < cl:
+                chk.count('returned:start-level-between-cruise-and-ceiling')
+            elif im['o'][2] + 3000 * FT >= cl:
+                chk.count('returned:start-at-airport-elevation')
+            if case.get('given_mass') is not None and not case['iterate'] and im['start_mass'] != case['given_mass']:
+                chk.fail(f"{case['o']}-{case['d']}: starting mass {case['given_mass']} handed in, the trajectory reports "
+                         f"{im['start_mass']}", {'kind': 'flight', 'case': case}, signature=None)
         if im['viol']:
             first = min(i for i, _ in im['viol'])
             msg = '; '.join(m for _, m in im['viol'][:3])
@@ -772,9 +896,12 @@ def run(chk: Check):
             'negative index relative to capacity (as coded, F1)'
         chk.notes['interpolate_time_behaviour'] = 'resamples the stored points (repaired)' if interp_fixed else \
             'resamples the capacity-long buffers (as coded, FC02a)'
+        gfix = detect_given_fix()
+        chk.notes['given_starting_mass'] = 'fuel load derived (repaired)' if gfix else \
+            'fuel load left None, fly raises TypeError (as coded, FC17a: C17\'s finding)'
         check_container(chk, f1_fixed)
         cases = load_corpus(chk) + [gen_case(chk.rng, f1_fixed) for _ in range(chk.n(110, 1200))]
-        check_flights(chk, [c for c in cases if c.get('kind') != 'container'], f1_fixed, interp_fixed)
+        check_flights(chk, [c for c in cases if c.get('kind') != 'container'], f1_fixed, interp_fixed, gfix)
     finally:
         teardown_env()
 
@@ -788,6 +915,6 @@ def replay(chk: Check, rp):
         if case.get('kind') == 'container':
             check_container(chk, f1_fixed)
         elif 'case' in case:
-            check_flights(chk, [case['case']], f1_fixed, detect_interp_fixed())
+            check_flights(chk, [case['case']], f1_fixed, detect_interp_fixed(), detect_given_fix())
     finally:
         teardown_env()
